@@ -53,7 +53,7 @@ CLAIMS = {
         "TLC proves Consolidate(seq) = Reference(set) for every sequence within the bound (order independence). Binding: the real HA service over real TCP "
         "sub-services on per-endpoint scripted sockets; the sub-service calls made inside the HA run are interposed at link time and the traces validated by "
         "TLC; every TLC-enumerated configuration sequence is pushed by scripted endpoints and the consolidated configuration compared after each push. Every third request scenario runs the EXTENDING high-availability service (extension requests, calendar-chain replies).",
-   note="Bounds: MC 3 endpoints x 2 requests (1.8e5 states); configs: all sequences <=2 (quick) / <=3 (thorough) per field over boundary alphabets; traces: 75/900 schedules on 1-3 endpoints. Calendar first/last time consolidation is model-checked but bound only through aggregator fields (maxlevel, period, maxreq). Defect F-C15-1 fixed.",
+   note="Error notices are attributed: the endpoint a notice names must be the one that failed. Bounds: MC 3 endpoints x 2 requests (1.8e5 states); configs: all sequences <=2 (quick) / <=3 (thorough) per field over boundary alphabets; traces: 75/900 schedules on 1-3 endpoints. Calendar first/last time consolidation is model-checked but bound only through aggregator fields (maxlevel, period, maxreq). Defect F-C15-1 fixed.",
    technique="TLC model checking + TLC trace validation with link-time interposed sub-service calls + replay of TLC-enumerated configuration sequences"),
  "C09": dict(level="model_checking", design_ref="DESIGN.md 4/C09",
    text="Tlv.tla states the wire format twice: byte-exact Encode / Parse (exact tiling at every expanded level) / one-element reads on small trees with the "
@@ -83,7 +83,7 @@ CLAIMS = {
         "replayed under the key-based, calendar-based, publications-file, user-publication and general policies on signatures whose trust anchor matches (C04's "
         "environment: real PKI, publications file, scripted extender), where the only admissible outcomes are OK for the right hash and level, GEN-01 / GEN-04 / "
         "GEN-03, or a refusal for levels above 255.",
-   note="Entry points also include KSI_verifyDataHash / KSI_verifySignature (general policy, context-level anchors) through the signature's own and a second identically configured context. Legacy signatures: the document is compared with the RFC 3161 record's input hash and any level above 0 is too large. Every context is replayed through four entry points (KSI_SignatureVerifier_verify, KSI_Signature_verifyWithPolicy with arguments / with a caller's context, KSI_Signature_parseWithPolicy). AnchorPolicy.tla shows the internal rules dominate every path to OK of the five anchor policies (BrokenNeverOk). RFC3161 (legacy) signatures are not generated.",
+   note="KSI_Signature_verifyDocument on the document itself (signed / empty / prefix / extension). Entry points also include KSI_verifyDataHash / KSI_verifySignature (general policy, context-level anchors) through the signature's own and a second identically configured context. Legacy signatures: the document is compared with the RFC 3161 record's input hash and any level above 0 is too large. Every context is replayed through four entry points (KSI_SignatureVerifier_verify, KSI_Signature_verifyWithPolicy with arguments / with a caller's context, KSI_Signature_parseWithPolicy). AnchorPolicy.tla shows the internal rules dominate every path to OK of the five anchor policies (BrokenNeverOk). RFC3161 (legacy) signatures are not generated.",
    technique="TLC-checked rule-tree model + exhaustive context table and bit-flip enumeration replayed into libksi"),
  "C10": dict(level="model_checking", design_ref="DESIGN.md 4/C10",
    text="Schema.tla restates the KSI schema of signatures and aggregation / extension response PDUs (v2) as data with a declarative Accept (mandatory, "
@@ -109,7 +109,7 @@ CLAIMS = {
         "letter-case spellings + unknown schemes; canonical spellings x credentials x host forms x ports x path x query x fragment x explicit credentials x "
         "blocking/async = 1.4e4 cases) and exports URI + Dispatch. Each URI is given to KSI_CTX_setAggregator/setExtender and KSI_AsyncService_setEndpoint; what "
         "the transports' configuration entry points receive (interposed at link time) must equal Dispatch and must not contain the embedded credentials.",
-   note="Unknown schemes include every proper prefix and one-letter extension of the known ones. quick: every spelling + a seeded sample of 4000 product cases (x aggregator/extender); thorough: the full table. Known finding F-C20-1 (fragment without path); defects F-C20-2, F-C20-3 fixed. The login id / key actually used on the wire are C06/C07's.",
+   note="One context is also configured twice with related URIs and the endpoint the transport client has stored is read back (Dispatch is history-free). Unknown schemes include every proper prefix and one-letter extension of the known ones. quick: every spelling + a seeded sample of 4000 product cases (x aggregator/extender); thorough: the full table. Known finding F-C20-1 (fragment without path); defects F-C20-2, F-C20-3 fixed. The login id / key actually used on the wire are C06/C07's.",
    technique="TLC-checked composition/dispatch table replayed into the blocking and asynchronous services with link-time interposed transport setters"),
  "C07": dict(level="model_checking", design_ref="DESIGN.md 4/C07",
    text="SignExtend.tla models signing as a request/reply protocol whose reply is an attribute vector (payload kind, MAC, header, PDU version, status, request id, "
@@ -118,7 +118,7 @@ CLAIMS = {
         "over the real blocking TCP client and the real asynchronous service on scripted sockets with replies built by the independent reference aggregator; "
         "the request on the wire must carry hash, level, login id unchanged and a correct HMAC; success must coincide with the spec's result and the returned "
         "signature must be for the requested hash and level.",
-   note="Honest replies list their aggregation chains in either order; blocking requests also travel over short writes; a handle is re-added after a partial-send timeout. Status may also be absent (read as zero by the SDK; every other condition must hold). quick: all single deviations + 400 sampled double deviations; thorough: all 1.6e3 behaviours. Also replayed over the blocking HTTP client on a scripted libcurl (HTTP status and transport errors included); the async curl_multi client and the block signer are not bound. The SDK adds the requested level to the reply's first level correction itself (so there is no 'lower level' reply).",
+   note="Signing also runs through the HA service (api ha: every endpoint is sent the caller's hash and level). Honest replies list their aggregation chains in either order; blocking requests also travel over short writes; a handle is re-added after a partial-send timeout. Status may also be absent (read as zero by the SDK; every other condition must hold). quick: all single deviations + 400 sampled double deviations; thorough: all 1.6e3 behaviours. Also replayed over the blocking HTTP client on a scripted libcurl (HTTP status and transport errors included); the async curl_multi client and the block signer are not bound. The SDK adds the requested level to the reply's first level correction itself (so there is no 'lower level' reply).",
    technique="TLC model checking of the protocol + replay of all TLC behaviours into the real signing calls on scripted sockets"),
  "C08": dict(level="model_checking", design_ref="DESIGN.md 4/C08",
    text="SignExtend.tla models extending (signatures with/without calendar chain, publication or authentication record x targets head / equal / later / earlier / "
